@@ -35,6 +35,40 @@ fn main() {
     let config = arg(&args, "--config").unwrap_or_else(|| "release".into());
     let only = arg(&args, "--only");
 
+    if id == "fuzz-replay" {
+        // check fuzz-replay <target> <artifact>: decode a libFuzzer input, re-run its oracle, write a replay file
+        let target = args.get(2).cloned().unwrap_or_default();
+        let file = args.get(3).cloned().unwrap_or_default();
+        let data = std::fs::read(&file).unwrap_or_else(|e| {
+            eprintln!("cannot read {}: {}", file, e);
+            std::process::exit(2)
+        });
+        match owlverif::fuzzmap::decode(&target, &data) {
+            None => {
+                println!("fuzz-replay: input decodes to nothing");
+                std::process::exit(0);
+            }
+            Some((prop, sub, case, check)) => {
+                let mut st = Stats::default();
+                match guarded(prop, sub, check, &case, &mut st) {
+                    Ok(()) => {
+                        println!("fuzz-replay: {} {} holds on {}", prop, sub, case);
+                        std::process::exit(0);
+                    }
+                    Err(f) if f.msg.starts_with("harness:") => {
+                        eprintln!("INCONCLUSIVE: {}", f.msg);
+                        std::process::exit(2);
+                    }
+                    Err(f) => {
+                        let path = write_replay(&root, prop, sub, &case, &format!("[fuzz:{}] {}", target, f.msg));
+                        println!("VIOLATION property={} replay={}", prop, path.display());
+                        eprintln!("  {}\n  case: {}", f.msg, case);
+                        std::process::exit(1);
+                    }
+                }
+            }
+        }
+    }
     if id == "list" {
         for p in props::all() {
             println!("{} {}", p.id, p.subchecks.iter().map(|s| s.name).collect::<Vec<_>>().join(","));
